@@ -617,6 +617,10 @@ func (u *Unit) fmtStringers(st *State, fr *Frame, in *ssa.Call, args []Value) bo
 
 func (u *Unit) callByContract(st *State, fr *Frame, in *ssa.Call, fn *ssa.Function, ct *Contract, args []Value) ([]Outcome, bool) {
 	key := fnKey(fn)
+	if ct.Broken != "" {
+		u.unsupported("callee contract %s does not resolve against the current source", key)
+		return nil, false
+	}
 	if u.usedCallee[key] == nil {
 		u.usedCallee[key] = map[string]bool{}
 	}
